@@ -107,7 +107,7 @@ def atom_fields(a):
     return (int(a.element), a.isotope, a.label, int(a.atype), int(a.stereo), int(a.geom), a.formal_charge, a.formal_spin, chem.norm_attr(a.attrib))
 
 
-def check_one_join(A, B, apA, apB, kw, cls, where, fails, determinism=True):
+def check_one_join(A, B, apA, apB, kw, cls, where, fails, determinism=True, named=0):
     """performs the join and checks everything; returns the product (or None)"""
     import molli as ml
     from molli.chem import BondType, BondStereo, Element
@@ -118,8 +118,10 @@ def check_one_join(A, B, apA, apB, kw, cls, where, fails, determinism=True):
     snapA, snapB = chem.snapshot(A), chem.snapshot(B)
     par0 = {"A": ([x.parent for x in A.atoms], [b.parent for b in A.bonds]), "B": ([x.parent for x in B.atoms], [b.parent for b in B.bonds])}
     np.random.seed(12345)
+    # the attachment points are named as Atom objects, as integer indices or by their (unique) labels: AtomLike
+    n1, n2 = [(a1, a2), (apA, apB), (a1.label, a2.label)][named]
     try:
-        P = cls.join(A, B, a1, a2, **kw)
+        P = cls.join(A, B, n1, n2, **kw)
     except Exception as e:
         from vf.core import exc_sig
 
@@ -236,7 +238,7 @@ def check_one_join(A, B, apA, apB, kw, cls, where, fails, determinism=True):
     # ---- hidden state
     if determinism:
         np.random.seed(777)
-        P2 = cls.join(A, B, a1, a2, **kw)
+        P2 = cls.join(A, B, n1, n2, **kw)
         if not np.array_equal(P.coords, P2.coords, equal_nan=True):
             fails.append(Fail("result-depends-on-hidden-state", f"{where}: coordinates differ between two calls with different np.random state (max {np.nanmax(np.abs(P.coords - P2.coords)):.3e})"))
     return P
@@ -284,7 +286,8 @@ def check_join(r) -> list[Fail]:
         if r["wrapped"] == 2:
             wrapped = None
             gc.collect()      # ... and that container is gone again: the atoms' parent reference is dead
-    check_one_join(A, B, apsA[0], apsB[0], _kw(r), cls, f"join[{deg or 'general'}]" + ["", " (A's atoms also sit in a live foreign container)", " (A's atoms carry a dead parent reference)"][r.get("wrapped", 0)], fails)
+    check_one_join(A, B, apsA[0], apsB[0], _kw(r), cls, f"join[{deg or 'general'}]" + ["", " (A's atoms also sit in a live foreign container)", " (A's atoms carry a dead parent reference)"][r.get("wrapped", 0)]
+                   + ["", " APs named by index", " APs named by label"][r.get("named", 0)], fails, named=r.get("named", 0))
     if not fails and r.get("again") and not deg:
         # the same fragment objects, edited in place by their owner, joined again: the product is built from their current state
         A.translate([0.4, -1.1, 2.3])
@@ -331,7 +334,7 @@ def strat_join(tier):
         "charge": st.one_of(st.none(), st.none(), st.just(0), st.integers(-3, 3)), "mult": st.one_of(st.none(), st.integers(1, 5)),
         "name": st.one_of(st.none(), st.just("product")),
         "btype": st.one_of(st.none(), st.sampled_from([1, 2, 3, 20, 99])), "bstereo": st.sampled_from([0, 10, 11]), "bforder": st.sampled_from([1.0, 1.5, 2.0]),
-        "degenerate": st.sampled_from([None, None, None, "parallel", "antiparallel", "axis"]), "again": st.booleans(), "wrapped": st.sampled_from([0, 0, 1, 2]),
+        "degenerate": st.sampled_from([None, None, None, "parallel", "antiparallel", "axis"]), "again": st.booleans(), "wrapped": st.sampled_from([0, 0, 1, 2]), "named": st.sampled_from([0, 0, 1, 2]),
     })
 
 
